@@ -58,6 +58,10 @@ def gen_tree(rng, prof, ctx, depth):
     pool = POOLS[prof.pool]
     if depth <= 0 or rng.random() < 0.45:
         r = rng.random()
+        if getattr(prof, 'foreign', 0) and rng.random() < prof.foreign:
+            return {'leaf': 'foreign'}
+        if ctx.get('prev') and rng.random() < 0.3:
+            return {'leaf': 'label', 'lb': rng.choice(ctx['prev'])}
         if r < 0.55 or not (ctx['shared'] or ctx['procs']):
             return {'leaf': 'timeout', 'd': rng.choice(pool), 'v': ctx['val']()}
         if r < 0.8 and ctx['shared']:
@@ -87,6 +91,8 @@ def gen_ops(rng, prof, ctx, pid, depth):
     ops = []
     n = rng.randint(1, prof.max_ops)
     kinds = [k for k, w in prof.w.items() for _ in range(w)]
+    saved_prev = ctx.get('prev')
+    ctx['prev'] = []
     for _ in range(n):
         k = rng.choice(kinds)
         h = rng.choice(prof.handlers)
@@ -119,7 +125,8 @@ def gen_ops(rng, prof, ctx, pid, depth):
         elif k == 'interrupt':
             if not ctx['procs']:
                 continue
-            op = {'op': 'interrupt', 'p': rng.choice(ctx['procs']), 'cause': ctx['val']()}
+            op = {'op': 'interrupt', 'p': rng.choice(ctx['procs']),
+                  'cause': rng.choice([0, '', False, None]) if rng.random() < 0.1 else ctx['val']()}
         elif k == 'cond':
             op = {'op': 'cond', 'tree': gen_tree(rng, prof, ctx, prof.depth + 1), 'h': h}
             if 'leaf' in op['tree']:
@@ -144,8 +151,11 @@ def gen_ops(rng, prof, ctx, pid, depth):
         else:
             continue
         ops.append(op)
+        if op['op'] in ('timeout', 'fire'):
+            ctx['prev'].append('%s.%d' % (pid, len(ops) - 1))
         if op['op'] in ('ret', 'raise'):
             break
+    ctx['prev'] = saved_prev
     return ops
 
 
@@ -187,6 +197,7 @@ class World:
         self.named = {}
         self.cond_nodes = []   # (label, type, [kid labels], is_leaf)
         self.cbs = {}
+        self.cvs = []
         self.proc_ids = {}
 
     def rec(self, tag, *rest):
@@ -211,6 +222,12 @@ class World:
         self.rec('O', by, None, 'addcb', self.env.label(ev), cbid, 'defuse' if defuse else 'plain')
 
     # condition trees ---------------------------------------------------------------------------
+    def foreign_event(self):
+        from onl.sim import Environment as _E
+        if not hasattr(self, '_foreign_env'):
+            self._foreign_env = _E()
+        return self._foreign_env.event()
+
     def build_tree(self, node, label, pid):
         env = self.env
         if 'leaf' in node:
@@ -229,6 +246,15 @@ class World:
                 if ev is None or node['p'] == pid:
                     return None
                 lb = env.label(ev)
+            elif k == 'label':
+                ev = env.by_label.get(node['lb'])
+                if ev is None:
+                    return None
+                lb = node['lb']
+            elif k == 'foreign':
+                ev = self.foreign_event()
+                lb = 'foreign'
+                return ev, ('leaf', lb)
             else:
                 return None
             self.cond_nodes.append((label, 'leaf', lb, ev.callbacks is None))
@@ -245,14 +271,27 @@ class World:
         pre = [k.callbacks is None for k in kids]
         if t in ('and', 'or') and len(kids) != 2:
             t = 'all' if t == 'and' else 'any'
-        if t == 'all':
-            ev = env.all_of(kids)
-        elif t == 'any':
-            ev = env.any_of(kids)
-        elif t == 'and':
-            ev = kids[0] & kids[1]
-        else:
-            ev = kids[0] | kids[1]
+        envs = set(id(k.env) for k in kids)
+        home = id(env) if t in ('all', 'any') or not kids else id(kids[0].env)
+        mixed = len(envs | {home}) > 1
+        if not mixed and kids and home != id(env):
+            return None                      # a purely foreign condition: nothing to do with this world
+        self.rec('K0', label)
+        try:
+            if t == 'all':
+                ev = env.all_of(kids)
+            elif t == 'any':
+                ev = env.any_of(kids)
+            elif t == 'and':
+                ev = kids[0] & kids[1]
+            else:
+                ev = kids[0] | kids[1]
+        except ValueError:
+            self.rec('O', pid, None, 'cond-mixed', label, 'ValueError' if mixed else 'unexpected-ValueError')
+            raise
+        if mixed:
+            self.rec('O', pid, None, 'cond-mixed', label, 'accepted')
+            return None
         env.name(ev, label)
         mode = 'all' if t in ('all', 'and') else 'any'
         self.rec('K', label, mode, tuple(s[1] if s[0] == 'leaf' else s[1] for s in shapes),
@@ -290,7 +329,12 @@ class World:
                 if h == 'none':
                     raise
             else:
-                self.rec('R', pid, i, lb, 'ok', san(v), v is getattr(ev, '_value', None))
+                if type(v).__name__ == 'ConditionValue':
+                    data = ('CV', tuple((env.label(e), san(x)) for e, x in v.items()))
+                    self.cvs.append((pid, i, lb, v, data))
+                else:
+                    data = san(v)
+                self.rec('R', pid, i, lb, 'ok', data, v is ev.value)
                 return 'next'
             if h == 'cont':
                 return 'next'
